@@ -45,6 +45,16 @@ CHECKS = {
     text="TLC enumerates all 1024 cells of {option absent/present} x {key absent/present} for swift-prefix, kotlin-prefix, java-package, scala-package and go-package, with the effective value per setting required by 'command line, else file, else default', and checks that the model of override_configuration agrees on every cell. Cells (a systematic slice with every single- and all-settings combination in quick; all cells x 4 discoveries in thorough) are executed with the real binary: typeshare.toml is written (found by -c or by ancestor search from cwd / parent / grandparent), generation is run for every language exposing a setting, the prefix/package is read back from the generated code; -g is run with the same options and its TOML parsed, then reloaded with no options, and a second -g must fail leaving the file intact. File-only tables (type_mappings for 6 languages, Swift default_decorators / default_generic_constraints, Go uppercase_acronyms / no_pointer_slice) are in every file and must show up unchanged in the output.",
     note="Trusted: TLC; extractors for reading prefix/package/mapped names; tomllib. -g is read as 'effective settings of its own invocation over the defaults' (no file is consulted when one is being created). Scala/Go cells without any package are skipped (typeshare refuses them; C07 covers missing packages).",
     design_ref="6/C20"),
+ "C01": dict(
+    technique="TLA+ spec of serde's field naming (SerdeAttrs.tla on SerdeCase.tla); TLC enumerates container x identifier x rename x rename_all x enum-level rule x attribute spelling with the required JSON keys; every case generated in 6 languages and the key bound to each member read back; dictionary/random fields validated by TLC (Trace_C01.tla)",
+    text="TLC enumerates every combination of container kind (struct, struct variant of a tagged enum), field identifier (plain, raw, target keyword, underscore edges), serde(rename) (none, plain, dashed, keyword), the 8 rename_all rules + none on the struct / on the variant, an enum-level rename_all that must NOT reach variant fields, and attribute spellings (merged, stacked attributes, rename not first, mixed with doc/cfg), and prints the JSON key serde uses for the field and for a plain neighbour field. Each case is generated for all 6 languages (Swift/Kotlin also with a type prefix) through the real library; extractors report for every member the key carried by the explicit binding (quoted property, @SerialName, CodingKeys raw value, json tag, Field alias) or else the identifier. In the other direction ~400 (quick) / 4000 (thorough) dictionary field names with random renames and rules are generated and every observed member is judged by TLC.",
+    note="Trusted: TLC; SerdeCase.tla (cross-checked against vendored serde_derive in C16); the extractors' notion of 'key'. Scala carries no binding: keys containing '-' are out of scope for Scala (rule stated in Trace_C01). Outputs the extractors cannot read (invalid target code) are counted and left to C10.",
+    design_ref="6/C01"),
+ "C02": dict(
+    technique="TLA+ spec of serde's variant naming and tag/content keys (SerdeAttrs.tla); TLC enumerates enums over identifier x rename x payload kind x rename_all x tag/content pair x plain/recursive/generic with the required wire strings; every case generated in 6 languages and every occurrence of each wire string and key read back; random dictionary enums validated by TLC (Trace_C02.tla)",
+    text="TLC enumerates unit enums and adjacently tagged enums whose variant under test ranges over identifier shape (single letter, word, camel, digit, acronym run, all caps), per-variant serde(rename) (none, plain, dashed), payload (unit, newtype, struct), the 8 rename_all rules + none, several tag/content key pairs, and plain / self-recursive / generic enums, next to fixed neighbours; P gives the wire string of every variant and the tag and content keys. The 6 backends' outputs are read back: the wire string of every case (all places it is written), every occurrence of the tag key (TypeScript shape, Swift ContainerCodingKeys and each forKey:, Go struct tags of carrier/Unmarshal/Marshal, Python tag fields) and of the content key; Kotlin and Scala are judged on names and content key only. Random enums of 1..6 dictionary-named variants with mixed payloads are judged by TLC as trace events (exactly one case per variant, each wire equal, every key occurrence equal).",
+    note="Trusted: TLC; SerdeCase.tla; extractors (which fold each backend's enum encoding into one definition and raise on internally inconsistent encoders). Backends that refuse a case (generic enums in Go) are skipped for that case.",
+    design_ref="6/C02"),
 }
 
 NOT_YET = "not built yet in this round (planned: see DESIGN.md section 6); no check is registered, nothing is claimed"
